@@ -297,10 +297,9 @@ Definition insert_child (c : card) (i : nat) (x : card) : ires :=
   | CBin _ _ _ | CUn _ _ | CSetGlobalVar _ _ | CSetVar _ _ | CRepeat _ _ _ =>
       match get_child_mut c i with Some (_, put) => IOk (put x) | None => IErr x end
   | CCallNative name args =>
-      (* (i <= len).then(|| insert(i, card));  the bool-then result is dropped: Ok(()) either way *)
-      if i <=? length args then do_vec_insert (CCallNative name) args i x else IOk c
+      if length args <? i then IErr x else do_vec_insert (CCallNative name) args i x
   | CCall name args =>
-      if i <=? length args then do_vec_insert (CCall name) args i x else IOk c
+      if length args <? i then IErr x else do_vec_insert (CCall name) args i x
   | CDynamicCall f args =>
       if i =? 0 then IOk (CDynamicCall x args)
       else if i - 1 <=? length args then do_vec_insert (CDynamicCall f) args (i - 1) x
@@ -309,6 +308,17 @@ Definition insert_child (c : card) (i : nat) (x : card) : ires :=
       if i <=? length children then do_vec_insert CArray children i x else IErr x
   | CFunction _ | CNativeFunction _ | CReadVar _ | CScalarInt _ | CScalarFloat _
   | CStringLiteral _ | CComment _ | CScalarNil | CCreateTable | CAbort => IErr x
+  end.
+
+(* the Call / CallNative arms before the repair bf83e3d (finding A-26):
+   `(i <= len).then(|| insert(i, card));` dropped the card and still returned Ok(()) *)
+Definition insert_child_legacy (c : card) (i : nat) (x : card) : ires :=
+  match c with
+  | CCallNative name args =>
+      if i <=? length args then do_vec_insert (CCallNative name) args i x else IOk c
+  | CCall name args =>
+      if i <=? length args then do_vec_insert (CCall name) args i x else IOk c
+  | _ => insert_child c i x
   end.
 
 Definition replace_child (c : card) (i : nat) (x : card) : rres :=
@@ -354,6 +364,17 @@ Definition ci_cmp (a b : card_index) : comparison :=
 
 Definition ci_ltb (a b : card_index) : bool :=
   match ci_cmp a b with Lt => true | _ => false end.
+
+(* #[derive(PartialEq)] on CardIndex / FunctionCardIndex *)
+Fixpoint indices_eqb (a b : list nat) : bool :=
+  match a, b with
+  | [], [] => true
+  | x :: a', y :: b' => Nat.eqb x y && indices_eqb a' b'
+  | _, _ => false
+  end.
+
+Definition ci_eqb (a b : card_index) : bool :=
+  Nat.eqb (ci_function a) (ci_function b) && indices_eqb (ci_indices a) (ci_indices b).
 
 (* FunctionCardIndex::begin *)
 Definition ci_begin (idx : card_index) : option nat :=
@@ -410,7 +431,26 @@ Definition get_card (m : module) (idx : card_index) : res card :=
           | Some card =>
               match slice (ci_indices idx) 1 (length (ci_indices idx)) with   (* indices[1..] *)
               | None => RPanic
-              | Some path => descend path 0 card          (* CardNotFound { depth } *)
+              | Some path => descend path 1 card          (* CardNotFound { depth: depth + 1 } *)
+              end
+          end
+      end
+  end.
+
+(* get_card before the repair 3cefd5a (finding A-41): CardNotFound { depth } *)
+Definition get_card_legacy (m : module) (idx : card_index) : res card :=
+  match nth_error (m_functions m) (ci_function idx) with
+  | None => RErr FunctionNotFound
+  | Some (_, f) =>
+      match ci_begin idx with
+      | None => RErr InvalidIndex
+      | Some b =>
+          match nth_error (f_cards f) b with
+          | None => RErr (CardNotFound 0)
+          | Some card =>
+              match slice (ci_indices idx) 1 (length (ci_indices idx)) with
+              | None => RPanic
+              | Some path => descend path 0 card
               end
           end
       end
@@ -537,8 +577,9 @@ Definition insert_card (m : module) (idx : card_index) (child : card) : res (mod
 
 Inductive swap_res := SwOk | SwErr (e : swap_error) | SwPanic.
 
-(* returns the module as the call leaves it (after a panic: as it was when the panic happened) *)
-Definition swap_cards (m : module) (lhs0 rhs0 : card_index) : module * swap_res :=
+(* swap_cards before the repair cc4ee9f (finding A-25): no test for equal indices.
+   Returns the module as the call leaves it (after a panic: as it was when the panic happened). *)
+Definition swap_cards_legacy (m : module) (lhs0 rhs0 : card_index) : module * swap_res :=
   let '(lhs, rhs) := if ci_ltb lhs0 rhs0 then (rhs0, lhs0) else (lhs0, rhs0) in
   match replace_card m rhs CScalarNil with
   | RErr e => (m, SwErr (SwapFetchError rhs e))
@@ -562,6 +603,16 @@ Definition swap_cards (m : module) (lhs0 rhs0 : card_index) : module * swap_res 
           end
       end
   end.
+
+Definition swap_cards (m : module) (lhs rhs : card_index) : module * swap_res :=
+  if ci_eqb lhs rhs then
+    (* nothing to swap, but the card has to exist *)
+    (m, match get_card m lhs with
+        | ROk _ => SwOk
+        | RErr e => SwErr (SwapFetchError lhs e)
+        | RPanic => SwPanic
+        end)
+  else swap_cards_legacy m lhs rhs.
 
 (* visit_children: push_subindex(0); for (k, child) in iter_children().enumerate()
    { set_current_index(k); op(id, child); visit_children(child) }; pop_subindex().
